@@ -9,6 +9,7 @@ import EaselModel.Getopts.AllocHist
 import EaselModel.Getopts.IllFormed
 import EaselModel.Getopts.HelpLemmas
 import EaselModel.Getopts.RoundLemmas
+import EaselModel.Getopts.EmptyArg
 /-! # C14 — option processing resolves every configuration by the documented rules
 
 Property theorems about the executable model `EaselModel.Getopts` of `esl_getopts.c` (tied to the working tree by
@@ -38,6 +39,8 @@ and every sequence of sources:
 * `strtod` rounding (decimal → nearest binary64, `Round.lean`, bit-exact against glibc in the differential run):
   `strtod_rounds_to_nearest`, `strtod_exact_on_representable`, `strtod_rounding_monotone_in_binade`, `strtod_monotone`,
   `real_range_test_monotone`, `inclusive_real_bound_accepts_every_true_member`
+* `--name=` with an EMPTY attached value (`EmptyArg.lean`): `flag_with_empty_value_is_usage_error`, `empty_attached_value_is_the_argument`,
+  `empty_attached_value_consumes_nothing`, `empty_value_rejected_by_numeric_types`, `empty_value_stored_by_string_types`, `empty_value_char_is_terminator`
 * (f) queries: `isUsed_iff`, `isDefault_of_default_setter`, `not_default_has_setter`
 
 Not proved here (checked by the differential run only): that the decimal `strtod`/`strtol` models agree with glibc;
@@ -827,5 +830,39 @@ def appT : List Opt := [{ name := s "-h", type := 0 }, { name := s "-n", type :=
 example : createDefaultApp appT 1 [s "prog", s "-n", s "3", s "file"] ≠ none ∧ createDefaultApp appT 1 [s "prog", s "-h"] = some .exitHelp ∧
     createDefaultApp appT 1 [s "prog"] = some .exitNargs ∧ createDefaultApp appT 1 [s "prog", s "-n", s "10", s "file"] = some .exitParse ∧
     (match createDefaultApp appT (-1) [s "prog", s "a", s "b"] with | some (.returned g) => argNumber g | _ => 0) = 2 := by decide
+
+/-! ## `--name=` : an empty attached value -/
+
+theorem flag_with_empty_value_is_usage_error {opts : List Opt} {name : Str} {i : Nat} (k : Nat) (next : Option Str) (hne : '=' ∉ name)
+    (hi : optidxAbbrev opts name = .found i) (ht : (opts.getD i default).type = 0) :
+    parseLong opts k (name ++ ['=']) next = ([.stop .esyntax true (k + 1)], none) := parseLong_flag_empty_value k next hne hi ht
+
+theorem empty_attached_value_is_the_argument {opts : List Opt} {name : Str} {i : Nat} (k : Nat) (next : Option Str) (hne : '=' ∉ name)
+    (hi : optidxAbbrev opts name = .found i) (ht : (opts.getD i default).type ≠ 0) :
+    parseLong opts k (name ++ ['=']) next = ([.set i (some []) (k + 1)], some false) := parseLong_empty_value k next hne hi ht
+
+/-- the word after `--name=` is not swallowed: it is parsed as the next element of the command line -/
+theorem empty_attached_value_consumes_nothing {opts : List Opt} {r : Str} {i : Nat} (k : Nat) (tl : List Str) (hr : r ≠ []) (hne : '=' ∉ r)
+    (hi : optidxAbbrev opts ('-' :: '-' :: r) = .found i) (ht : (opts.getD i default).type ≠ 0) :
+    parseCmd opts k (('-' :: '-' :: r ++ ['=']) :: tl) false = .set i (some []) (k + 1) :: parseCmd opts (k + 1) tl false :=
+  parseCmd_empty_value k tl hr hne hi ht
+
+theorem empty_value_rejected_by_numeric_types (o : Opt) (src : Nat) (hs : src ≠ byDefault) (ht : o.type = 1 ∨ o.type = 2) :
+    verifyTypeRange o (some []) src = .bad := empty_value_not_a_number o src hs ht
+
+theorem empty_value_stored_by_string_types (o : Opt) (src : Nat) (ht : o.type = 4 ∨ o.type = 5 ∨ o.type = 6) (hr : o.range = none) :
+    verifyTypeRange o (some []) src = .good ∧ newVal o (some []) = .str [] := empty_value_is_a_string o src ht hr
+
+theorem empty_value_char_is_terminator (o : Opt) (src : Nat) (ht : o.type = 3) :
+    verifyTypeRange o (some []) src = (if charRangeOk [] o.range then .good else .bad) := empty_value_char o src ht
+
+/-- on the demo table: `--multi= x` stores "" and leaves `x` as the first argument; `--mul=` (a flag) and `--lown=` (an
+    integer) are usage errors -/
+example : (match processCmdline demoG [s "prog", s "--multi=", s "x"] with | .done g st _ => some (st, g.valOf 6, getArg g 1, argNumber g) | .fault => none)
+    = some (.ok, .str [], some (s "x"), 1) := by decide
+example : (match processCmdline demoG [s "prog", s "--mul=", s "x"] with | .done _ st m => some (st, m) | .fault => none) = some (.esyntax, true) ∧
+    (match processCmdline demoG [s "prog", s "--lown=", s "5"] with | .done g st m => some (st, m, g.valOf 4) | .fault => none)
+      = some (.esyntax, true, .str (s "42")) := by decide
+example : '=' ∉ s "--multi" ∧ optidxAbbrev demo (s "--multi") = .found 6 ∧ (demo.getD 6 default).type ≠ 0 := by decide
 
 end EaselModel.Props.C14
